@@ -351,7 +351,13 @@ class Run:
             known_findings=known,
         )
         os.makedirs(os.path.join(ROOT, "evidence"), exist_ok=True)
-        json.dump(ev, open(os.path.join(ROOT, "evidence", self.pid + ".json"), "w"), indent=1, ensure_ascii=False)
+        ef = os.path.join(ROOT, "evidence", self.pid + ".json")
+        json.dump(ev, open(ef, "w"), indent=1, ensure_ascii=False)
+        # self-validation against the evidence schema when the tooling venv is present (never affects the verdict)
+        if shutil.which("python3-vt") and os.path.exists("/root/.vp/EVIDENCE.schema.json"):
+            rc, o = sh(["python3-vt", "-c", "import json,jsonschema,sys; jsonschema.validate(json.load(open(sys.argv[1])), json.load(open('/root/.vp/EVIDENCE.schema.json')))", ef])
+            if rc != 0:
+                print("# WARNING: evidence file does not validate: " + o.strip().split("\n")[-1][:300], file=sys.stderr)
 
     # ------------------------------------------------------------------ replay of a stored violation
     def replay(self, path):
